@@ -22,7 +22,7 @@ AREA = "init"
 # ----------------------------------------------------------------- type domain
 SCALARS = ["int", "char", "long", "float", "double", "ptr", "bool", "short"]
 ARRAYS = ["i2", "i3", "i0", "i22", "i02", "l3", "p2", "d2"]
-CHARS = ["c4", "c0", "c3", "uc4", "h4", "h0", "U4", "w4", "w0", "c24", "c04"]
+CHARS = ["c4", "c0", "c3", "uc4", "h4", "h0", "U4", "w4", "w0", "c24"]
 STRUCTS = ["sii", "scl", "sfd", "sn", "sn2", "sa", "sa3", "as", "as0", "asa", "sbf", "sbf2", "sub", "sub2",
            "san", "sau", "sau2", "u", "us", "ub", "su", "au", "sf", "sfs", "sfc", "sc4", "sw", "sp"]
 ALL_TYPES = SCALARS + ARRAYS + CHARS + STRUCTS
